@@ -18,6 +18,9 @@ Transformations (complete list - the evidence file reports the counts per functi
   T5  `raise X` -> `raise __vc__.raised(X)` and `assert t, m` -> `if not t: raise __vc__.raised(AssertionError(m))`:
       only exceptions raised EXPLICITLY by the analysed code (or deliberately by a spec function) are
       program behaviour; any other exception escaping the run is an engine limit (OutOfSubset, undecided).
+  T6  (opt-in per contract, `comprehensions = True`) a single-generator list comprehension with a plain name target
+      `[elt for x in it if c]` -> `__vc__.listcomp(it, lambda x: elt, lambda x: c)`; for an ordinary iterable the helper
+      IS that comprehension, a symbolic collection answers through `_vc_listcomp`.
   T4  global names are resolved in the spec environment (numpy -> pyvc.npspec, builtins ->
       pyvc.pyspec, plus what the contract supplies); an unknown global raises OutOfSubset.
 """
@@ -65,9 +68,16 @@ def locate(spec, repo=None):
     node = None
     for i, p in enumerate(parts):
         found = None
+        want = None
+        if '#' in p:            # 'name#k': the k-th definition of that name in source order (property getter #0, setter #1)
+            p, want = p.split('#')
+            want = int(want)
+        seen_defs = 0
         for n in body:
             if isinstance(n, (ast.FunctionDef, ast.ClassDef)) and n.name == p:
-                found = n       # last definition wins, as in python
+                if want is None or seen_defs == want:
+                    found = n       # last definition wins, as in python (unless #k selects one)
+                seen_defs += 1
         if found is None:
             raise OutOfSubset('cannot locate %s in %s' % (qual, path))
         if isinstance(found, ast.ClassDef) and i < len(parts) - 1:
@@ -169,8 +179,10 @@ def _locals():
 
 
 class Transformer(ast.NodeTransformer):
-    def __init__(self, fn, loop_ordinals_to_cut):
+    def __init__(self, fn, loop_ordinals_to_cut, rebind=None, comprehensions=False):
         self.fn = fn
+        self.rebind = rebind or {}          # {loop ordinal: names havocked at the head although not syntactically assigned (Loop.rebind)}
+        self.comprehensions = comprehensions
         self.ordinal = {id(n): k for k, n in enumerate(loops_in_source_order(fn))}
         self.cut = set(loop_ordinals_to_cut)
         self.stats = dict(stmts_read=0, dropped_docstrings=0, dropped_log_calls=0, is_rewrites=0, loops_cut=0,
@@ -245,6 +257,22 @@ class Transformer(ast.NodeTransformer):
             return _call('super_', ast.Name(id='self', ctx=ast.Load()))
         return node
 
+    def visit_ListComp(self, node):
+        # T6 (opt-in, Contract.comprehensions): [elt for x in it if c] -> __vc__.listcomp(it, lambda x: elt, lambda x: c)
+        self.generic_visit(node)
+        if not self.comprehensions or len(node.generators) != 1:
+            return node
+        g = node.generators[0]
+        if g.is_async or not isinstance(g.target, ast.Name):
+            return node
+        self.stats['comprehensions'] = self.stats.get('comprehensions', 0) + 1
+        args = ast.arguments(posonlyargs=[], args=[ast.arg(arg=g.target.id)], kwonlyargs=[], kw_defaults=[], defaults=[])
+        cond = ast.Constant(None)
+        if g.ifs:
+            test = g.ifs[0] if len(g.ifs) == 1 else ast.BoolOp(op=ast.And(), values=list(g.ifs))
+            cond = ast.Lambda(args=args, body=test)
+        return _call('listcomp', g.iter, ast.Lambda(args=args, body=node.elt), cond)
+
     def visit_Raise(self, node):
         self.generic_visit(node)
         if node.exc is not None:
@@ -273,6 +301,7 @@ class Transformer(ast.NodeTransformer):
             return node
         self.stats['loops_cut'] += 1
         names = assigned_names(node.body)
+        names = names + [n for n in self.rebind.get(k, ()) if n not in names]
         test = self.visit(node.test)
         self.loop_stack.append(k)
         body = self._block(node.body)
@@ -298,6 +327,7 @@ class Transformer(ast.NodeTransformer):
             return node
         self.stats['loops_cut'] += 1
         names = assigned_names(node.body) + [n for n in assigned_names([ast.Assign(targets=[node.target], value=ast.Constant(0))])]
+        names = names + list(self.rebind.get(k, ()))
         seen, uniq = set(), []
         for n in names:
             if n not in seen:
@@ -321,13 +351,13 @@ class Transformer(ast.NodeTransformer):
         return pre + [oneshot]
 
 
-def instrument(loc, cut_loops=()):
+def instrument(loc, cut_loops=(), rebind=None, comprehensions=False):
     """-> (code object defining the function, stats).  The function definition is re-parsed from the
     located source segment so that line numbers are relative and the original tree is not mutated."""
     src = textwrap.dedent(loc.source)
     tree = ast.parse(src)
     fn = tree.body[0]
-    tr = Transformer(fn, cut_loops)
+    tr = Transformer(fn, cut_loops, rebind, comprehensions)
     n_loops = len(loops_in_source_order(fn))
     for k in cut_loops:
         if k >= n_loops:
